@@ -7,6 +7,7 @@ package tree
 
 import (
 	"bytes"
+	"fmt"
 	"math/big"
 	"testing"
 
@@ -156,4 +157,99 @@ func TestC07KnownValidPrefix(t *testing.T) {
 		return
 	}
 	t.Fatalf("the valid branch b1-b2 (height 2) is completely stored but the best block is %d (delivery error: %v)", f.D.Best().BlockNo(), err)
+}
+
+// TestC05Exhaustive delivers EVERY arrival order of the blocks of a few small trees (with
+// transactions shared between and conflicting across branches) to a fresh node and checks the
+// chain-database invariants after every arrival.
+func TestC05Exhaustive(t *testing.T) {
+	rec := ev.New("C05", "exhaustive")
+	defer rec.Flush()
+	rec.SetExhaustive(true)
+	maxBlocks := ev.IntEnv("VERIF_C05_BLOCKS", 4)
+	shard, nshards := ev.IntEnv("VERIF_SHARD_IDX", 0), ev.IntEnv("VERIF_NSHARDS", 1)
+	f := newFixture(t)
+	// shapes: parent index per block (-1 = genesis); tx: which user sends (shared users create conflicts)
+	shapes := [][]int{
+		{-1, 0, 1, 2},      // linear
+		{-1, 0, -1, 2},     // two branches of 2 from genesis
+		{-1, 0, 1, 0},      // side block from block 0 beside a longer main
+		{-1, -1, 1, 2},     // short main, longer side
+		{-1, 0, 0, 2, 3},   // fork at block 0, side overtakes
+		{-1, 0, -1, 2, 3},  // side from genesis overtakes a main of 2
+	}
+	count := 0
+	for si, shape := range shapes {
+		if len(shape) > maxBlocks {
+			continue
+		}
+		// build the blocks once
+		blocks := make([]*types.Block, len(shape))
+		nonces := make([]map[int]uint64, len(shape))
+		for i, par := range shape {
+			prev := f.gen
+			pn := map[int]uint64{}
+			if par >= 0 {
+				prev = blocks[par]
+				for k, v := range nonces[par] {
+					pn[k] = v
+				}
+			}
+			u := i % 2 // users 0 and 1 alternate: branches conflict on (sender, nonce)
+			pn[u]++
+			p := f.block(t, prev, int64(i+1), f.transfer(prev, u, pn[u], 2, int64(i+1)))
+			blocks[i] = p.Block
+			nonces[i] = pn
+		}
+		idx := make([]int, len(shape))
+		for i := range idx {
+			idx[i] = i
+		}
+		var perms [][]int
+		var gen func(k int)
+		gen = func(k int) {
+			if k == len(idx) {
+				perms = append(perms, append([]int{}, idx...))
+				return
+			}
+			for i := k; i < len(idx); i++ {
+				idx[k], idx[i] = idx[i], idx[k]
+				gen(k + 1)
+				idx[k], idx[i] = idx[i], idx[k]
+			}
+		}
+		gen(0)
+		for pi, perm := range perms {
+			if (count+pi)%nshards != shard {
+				continue
+			}
+			D, err := vnode.Open(f.spec, "")
+			if err != nil {
+				t.Fatal(err)
+			}
+			D.SwitchTo()
+			var known []*types.Block
+			reorg := false
+			for step, bi := range perm {
+				known = append(known, blocks[bi])
+				before := D.Best()
+				D.AddPeer(blocks[bi])
+				after := D.Best()
+				if !bytes.Equal(before.BlockHash(), after.BlockHash()) && !isAncestor(D, before, after) {
+					reorg = true
+				}
+				if err := D.CheckChainInvariants(f.gen.BlockHash(), known); err != nil {
+					D.Remove()
+					path := rec.WriteReplay(fmt.Sprintf("c05-exhaustive-shape%d-perm%d.json", si, pi), map[string]interface{}{"shape": shape, "order": perm, "step": step})
+					t.Fatalf("shape %v, arrival order %v, after arrival %d: %v (replay %s)", shape, perm, step, err, path)
+				}
+			}
+			D.Remove()
+			nontrivial := reorg || perm[0] != 0
+			rec.Case(fmt.Sprintf("shape%d", si), fmt.Sprintf("%v|%v", shape, perm), nontrivial, func() interface{} {
+				return map[string]interface{}{"shape(parent of each block)": shape, "arrival order": perm}
+			})
+		}
+		count += len(perms)
+	}
 }
